@@ -400,8 +400,12 @@ impl StaticMetadata {
             named_instances.clear();
         };
 
-        // Claim names for axes and named instances
-        let mut name_id_gen = 255;
+        // Claim names for axes and named instances, starting after the largest
+        // name ID the source already uses so that no ID is handed out twice
+        let mut name_id_gen: u16 = names
+            .keys()
+            .map(|key| key.name_id.to_u16())
+            .fold(255, u16::max);
         // Spec-reserved names (<= 255) are not allowed in the set of unique reusable strings,
         // with the exception of the default instance's subfamily name which can reuse the
         // existing nameID 2 or 17:
@@ -756,6 +760,35 @@ mod tests {
         assert_eq!(
             [one, two, tre].into_iter().collect::<ConditionSet>(),
             [two, tre, one].into_iter().collect()
+        );
+    }
+
+    #[test]
+    fn source_name_ids_above_255_are_not_reused() {
+        let names = HashMap::from([(
+            NameKey::new_bmp_only(NameId::new(256)),
+            "From Source".to_string(),
+        )]);
+        let static_metadata = StaticMetadata::new(
+            1000,
+            names,
+            vec![Axis::for_test("wght")],
+            Vec::new(),
+            HashSet::from([vec![(WGHT, NormalizedCoord::new(0.0))].into()]),
+            None,
+            0.0,
+            None,
+            false,
+        )
+        .unwrap();
+        let reverse_names = static_metadata.reverse_names();
+        assert_eq!(
+            reverse_names.get("From Source").unwrap(),
+            &BTreeSet::from([NameId::new(256)])
+        );
+        assert_eq!(
+            reverse_names.get("Weight").unwrap(),
+            &BTreeSet::from([NameId::new(257)])
         );
     }
 }
